@@ -1,8 +1,9 @@
 import InfluxQL.Gen.Sites
 import InfluxQL.Lemmas.Total
 import InfluxQL.Lemmas.Neutral
+import InfluxQL.Lemmas.TotalStmtTop
 /-!
-# C04 — parsing is total (lexer and expression parser)
+# C04 — parsing is total (lexer, expression parser, statement parser)
 
 Model: `scan` (structural recursion: it terminates by construction), the token plumbing and the
 expression parser of `Model/ParserCore.lean`. Mutually recursive functions take a fuel
@@ -12,6 +13,14 @@ argument, `Fail.fuel` is "would not have terminated within the bound", `Fail.pan
 Measure (Lemmas/Total.lean): `mu s = |runes not yet scanned| + |pushed-back tokens other than EOF|`.
 Ring invariant: `Good s = s.n ≤ |s.buf| ≤ 3` (never more tokens pushed back than the ring of three
 remembers).
+
+Statement level (Model/ParserStmt.lean; Lemmas/TotalStmt*.lean): the contract `Tot B m` — started
+in any state satisfying the ring invariant with at most one token pushed back and measure `≤ B`,
+`m` ends in such a state with a measure that has not grown, or fails with an ordinary parse error —
+is closed under `>>=`/`if`/`match`, holds for every clause parser, for `parseSelectStatement` with
+subqueries to any depth (induction on the fuel), for each of the 41 handlers of parse_tree.go, for
+the descent through the generated dispatch tree, for `ParseStatement` and for the `;` loop of
+`ParseQuery`.
 -/
 namespace InfluxQL.C04
 open InfluxQL Gen
@@ -180,6 +189,168 @@ theorem parseExpr_fuel_suffices (text : Str) (params : List (Str × BoundValue))
   · intro he; rw [he] at h; exact h
   · intro m he; rw [he] at h; exact h
 
+/-! ## The statement parser -/
+
+/-- **C04 (obligation on the generated dispatch tree).** From the root of the tree regenerated
+from parse_tree.go every path reaches a leaf within `|tree| + 1` rounds — the number of rounds
+`ParseStatement` grants its descent (the tree has no cycle and no dangling subtree index). -/
+theorem gen_dispatch_depth : dispatchDepthOK (dispatch.length + 1) 0 = true := by
+  decide +kernel
+
+/-- **C04 (`ParseStatement` is total).** For every text, every parameter map and every
+lower-casing table, `ParseStatement` with the fuel `4 * |text| + 100` returns a statement or an
+ordinary error: never out of fuel (neither the expression/subquery recursion nor any loop of a
+clause parser, nor the descent through the dispatch tree), never a panic. All 41 handlers of the
+generated table are covered. -/
+theorem parseStatement_fuel_suffices (text : Str) (params : List (Str × BoundValue))
+    (tbl : List (Char × Char)) :
+    parseStatementText text params tbl ≠ .error .fuel ∧
+    ∀ m, parseStatementText text params tbl ≠ .error (.panic m) :=
+  have h := parseStatementText_total gen_dispatch_depth text params tbl
+  ⟨h.ne_fuel, h.ne_panic⟩
+
+/-- **C04 (`ParseQuery` is total).** For every text, every parameter map and every lower-casing
+table, `ParseQuery` with the fuel `4 * |text| + 100` and `n + |rest| + 2` rounds of its `;` loop
+returns a list of statements or an ordinary error: never out of fuel, never a panic. -/
+theorem parseQuery_fuel_suffices (text : Str) (params : List (Str × BoundValue))
+    (tbl : List (Char × Char)) :
+    parseQueryText text params tbl ≠ .error .fuel ∧
+    ∀ m, parseQueryText text params tbl ≠ .error (.panic m) :=
+  have h := parseQueryText_total gen_dispatch_depth text params tbl
+  ⟨h.ne_fuel, h.ne_panic⟩
+
+/-- The outcome of running `m` in `s`: a value in a state whose measure has not grown, with the
+ring invariant and at most one token pushed back; or an ordinary parse error. -/
+def Outcome {α : Type} (m : P α) (s : PState) : Prop :=
+  match m.run s with
+  | .ok (_, s') => Good s' ∧ s'.n ≤ 1 ∧ mu s' ≤ mu s ∧ s'.params = s.params
+  | .error f => f.isErr
+
+theorem outcome_of_tot {α : Type} {m : P α} {B : Nat} (h : Tot B m) {s : PState} (hs : Std B s) :
+    Outcome m s := by
+  have h1 := h s hs
+  unfold wp at h1
+  unfold Outcome
+  cases hr : m.run s with
+  | error e => rw [hr] at h1; exact h1
+  | ok p =>
+    obtain ⟨a, s'⟩ := p
+    rw [hr] at h1
+    exact ⟨h1.1.good, h1.2, h1.1.mu_le, h1.1.params⟩
+
+/-- **C04 (linear step bound, statement level).** In every state satisfying the ring invariant with
+at most one token pushed back, with fuel above `2 * mu s + 4` — `mu s` = runes not yet scanned +
+pending tokens, so the number of recursive calls and loop iterations granted is linear in what is
+left of the input — `ParseStatement`, `ParseQuery`, every handler of the dispatch table and
+`parseSelectStatement` return a result (in a state with the ring invariant, at most one token
+pushed back, and a measure that has not grown) or an ordinary parse error: never `Fail.fuel`,
+never a panic. The loops of the clause parsers run on their own counters `n + |rest| + 2`
+(`stmt_loops_linear`), the dispatch descent on `|tree| + 1`, the option loop of ALTER RETENTION
+POLICY on 8. -/
+theorem parseStatement_fuel_suffices_state (F : Nat) (s : PState) (hg : Good s) (hn : s.n ≤ 1)
+    (hf : FuelOK F s) :
+    Outcome (parseStatement F) s ∧ Outcome (parseQuery F) s ∧
+    (∀ h, Outcome (runHandler F h) s) ∧ (∀ tr, Outcome (parseSelect F tr) s) := by
+  unfold FuelOK at hf
+  have hs : Std (mu s) s := ⟨hg, hn, Nat.le_refl _⟩
+  have hF : 2 * mu s + 3 ≤ F := by omega
+  exact ⟨outcome_of_tot (parseStatement_tot gen_dispatch_depth hF) hs,
+    outcome_of_tot (parseQuery_tot gen_dispatch_depth hF) hs,
+    fun h => outcome_of_tot (runHandler_tot hF h) hs,
+    fun tr => outcome_of_tot (parseSelect_tot F _ tr hF) hs⟩
+
+/-- **C04 (the loops of the clause parsers are linear).** Each list loop of the statement parser —
+string lists, identifier lists, sort fields, dimensions, fields, sources (without and with
+subqueries), the `;` loop — started with a round counter above the measure of the state
+(`loopFuel = n + |rest| + 2` is) never exhausts it: every round that continues has consumed a `,`
+(or a `;`, or a statement). The option loop of ALTER RETENTION POLICY stops after at most seven
+rounds (six distinct options). -/
+theorem stmt_loops_linear (F it : Nat) (s : PState) (hg : Good s) (hn : s.n ≤ 1) (hf : FuelOK F s)
+    (hit : mu s + 1 ≤ it) :
+    (∀ acc, Outcome (stringListLoop it acc) s) ∧ (∀ acc, Outcome (identListLoop it acc) s) ∧
+    (∀ acc, Outcome (sortFieldsLoop it acc) s) ∧ (∀ acc, Outcome (dimLoop F it acc) s) ∧
+    (∀ acc, Outcome (fieldsLoop F it acc) s) ∧ (∀ acc, Outcome (sourcesLoop none it acc) s) ∧
+    (∀ acc, Outcome (sourcesLoop (some (parseSelect (F - 1) false)) it acc) s) ∧
+    (∀ semi acc, Outcome (queryLoop F it semi acc) s) ∧ (∀ o, Outcome (alterLoop 8 [] o) s) := by
+  unfold FuelOK at hf
+  have hs : Std (mu s) s := ⟨hg, hn, Nat.le_refl _⟩
+  refine ⟨fun acc => outcome_of_tot (stringListLoop_tot it _ acc hit) hs,
+    fun acc => outcome_of_tot (identListLoop_tot it _ acc hit) hs,
+    fun acc => outcome_of_tot (sortFieldsLoop_tot it _ acc hit) hs,
+    fun acc => outcome_of_tot (dimLoop_tot it _ acc (by omega) hit) hs,
+    fun acc => outcome_of_tot (fieldsLoop_tot it _ acc (by omega) hit) hs,
+    fun acc => outcome_of_tot (sourcesLoop_tot none it _ acc SubOK.none hit) hs,
+    fun acc => outcome_of_tot (sourcesLoop_tot _ it _ acc ?_ hit) hs,
+    fun semi acc => outcome_of_tot (queryLoop_tot gen_dispatch_depth it _ semi acc (by omega) hit) hs,
+    fun o => outcome_of_tot (alterLoop_tot 8 [] o (by decide)) hs⟩
+  intro p hp hB
+  cases hp
+  exact parseSelect_tot _ _ _ (by omega)
+
+/-- **C04 (push-back depth, statement parser).** Started with at most one token pushed back in a
+state satisfying the ring invariant, every function of the statement parser ends — if it
+succeeds — in a state satisfying the invariant with at most one token pushed back: `ParseQuery`,
+`ParseStatement`, each handler, `parseSelectStatement`, and the clause parsers (`parseTokens`,
+identifier and string lists, integers, durations, condition, dimensions, fill, time zone, ORDER BY,
+fields, target, sources, the tag-key clause; segmented identifiers are in `tokbuf_depth`). Inside,
+the count exceeds one only where two `Unscan`s follow each other: in the `IDENT` path of
+`parseUnaryExpr` (two after two `Scan`s, `tokbuf_depth`) and on the error path of CREATE CONTINUOUS
+QUERY (`cqFail_tot`: two after `parseSelectStatement` has left one token pushed back — the count
+is 3, the size of the ring, and the function returns an error whatever token is re-delivered). -/
+theorem stmt_tokbuf_depth (F : Nat) (s s' : PState) (hg : Good s) (hn : s.n ≤ 1) (hf : FuelOK F s) :
+    (∀ r, (parseQuery F).run s = .ok (r, s') → Good s' ∧ s'.n ≤ 1) ∧
+    (∀ r, (parseStatement F).run s = .ok (r, s') → Good s' ∧ s'.n ≤ 1) ∧
+    (∀ h r, (runHandler F h).run s = .ok (r, s') → Good s' ∧ s'.n ≤ 1) ∧
+    (∀ tr r, (parseSelect F tr).run s = .ok (r, s') → Good s' ∧ s'.n ≤ 1) ∧
+    (∀ ts r, (parseTokens ts).run s = .ok (r, s') → Good s' ∧ s'.n ≤ 1) ∧
+    (∀ r, parseIdentList.run s = .ok (r, s') → Good s' ∧ s'.n ≤ 1) ∧
+    (∀ r, parseStringList.run s = .ok (r, s') → Good s' ∧ s'.n ≤ 1) ∧
+    (∀ a b r, (parseIntRange a b).run s = .ok (r, s') → Good s' ∧ s'.n ≤ 1) ∧
+    (∀ r, parseUInt64.run s = .ok (r, s') → Good s' ∧ s'.n ≤ 1) ∧
+    (∀ r, parseDurationTok.run s = .ok (r, s') → Good s' ∧ s'.n ≤ 1) ∧
+    (∀ t r, (parseOptTokInt t).run s = .ok (r, s') → Good s' ∧ s'.n ≤ 1) ∧
+    (∀ r, (parseCondition F).run s = .ok (r, s') → Good s' ∧ s'.n ≤ 1) ∧
+    (∀ r, (parseDimensions F).run s = .ok (r, s') → Good s' ∧ s'.n ≤ 1) ∧
+    (∀ r, (parseFill F).run s = .ok (r, s') → Good s' ∧ s'.n ≤ 1) ∧
+    (∀ r, (parseLocation F).run s = .ok (r, s') → Good s' ∧ s'.n ≤ 1) ∧
+    (∀ r, parseOrderBy.run s = .ok (r, s') → Good s' ∧ s'.n ≤ 1) ∧
+    (∀ r, (parseFields F).run s = .ok (r, s') → Good s' ∧ s'.n ≤ 1) ∧
+    (∀ req r, (parseTarget req).run s = .ok (r, s') → Good s' ∧ s'.n ≤ 1) ∧
+    (∀ r, parseSources.run s = .ok (r, s') → Good s' ∧ s'.n ≤ 1) ∧
+    (∀ r, parseTagKeyExpr.run s = .ok (r, s') → Good s' ∧ s'.n ≤ 1) := by
+  unfold FuelOK at hf
+  have hs : Std (mu s) s := ⟨hg, hn, Nat.le_refl _⟩
+  have hF : 2 * mu s + 3 ≤ F := by omega
+  have hF2 : 2 * mu s + 2 ≤ F := by omega
+  have key : ∀ {α : Type} {m : P α}, Tot (mu s) m → ∀ r, m.run s = .ok (r, s') → Good s' ∧ s'.n ≤ 1 := by
+    intro α m h r hr
+    have := wp_run_ok (h s hs) hr
+    exact ⟨this.1.good, this.2⟩
+  exact ⟨key (parseQuery_tot gen_dispatch_depth hF), key (parseStatement_tot gen_dispatch_depth hF),
+    fun h => key (runHandler_tot hF h), fun tr => key (parseSelect_tot F _ tr hF),
+    fun ts => key (parseTokens_tot ts), key parseIdentList_tot, key parseStringList_tot,
+    fun a b => key (parseIntRange_tot a b), key parseUInt64_tot, key parseDurationTok_tot,
+    fun t => key (parseOptTokInt_tot t), key (parseCondition_tot hF2), key (parseDimensions_tot hF2),
+    key (parseFill_tot hF2), key (parseLocation_tot hF2), key parseOrderBy_tot, key (parseFields_tot hF2),
+    fun req => key (parseTarget_tot req), key parseSources_tot, key parseTagKeyExpr_tot⟩
+
+/-- **C04 (the rewind of CREATE CONTINUOUS QUERY stays within the ring).** The one place of the
+statement parser where the push-back count exceeds two: after `parseSelectStatement` has returned
+(with at most one token pushed back) the error path un-scans twice and scans again. The count is
+then at most 3 — the number of slots of the ring (`curr()` indexes `(i - n + 3) % 3` after the
+decrement, `n ≤ 2`: in range) — and that scan returns in any case (`ScanIgnoreWhitespace` needs no
+invariant to terminate), after which the function returns an ordinary parse error. -/
+theorem cq_rewind_within_ring (F : Nat) (s s' : PState) (r : SelectStmt) (hg : Good s) (hn : s.n ≤ 1)
+    (hf : FuelOK F s) (hr : (parseSelect F true).run s = .ok (r, s')) :
+    (unsc (unsc s')).n ≤ 3 ∧ (unsc (unsc s')).buf.length ≤ 3 ∧
+    (∃ lx s'', scanIW.run (unsc (unsc s')) = .ok (lx, s'')) := by
+  have h := ((stmt_tokbuf_depth F s s' hg hn hf).2.2.2.1 true r hr)
+  refine ⟨by show s'.n + 1 + 1 ≤ 3; have := h.2; omega, h.1.hb, ?_⟩
+  have ha := scanIW_any (unsc (unsc s'))
+  cases hrun : scanIW.run (unsc (unsc s')) with
+  | error e => exact (wp_run_error ha hrun).elim
+  | ok p => exact ⟨p.1, p.2, rfl⟩
+
 /-! ## Inventory of panic sites (regenerated from parser.go and scanner.go) -/
 
 /-- **C04 (panic-site inventory).** The places where the Go runtime could panic in parser.go and
@@ -229,5 +400,36 @@ example (text : Str) : Good (PState.init text [] []) ∧ (PState.init text [] []
     FuelOK (fuelFor text) (PState.init text [] []) := by
   obtain ⟨hg, hn, hmu⟩ := init_good text [] []
   exact ⟨hg, by omega, by unfold FuelOK fuelFor; omega⟩
+
+-- non-vacuity (statement level): the model parses concrete statements — a subquery, a statement of
+-- the SHOW family, two statements separated by `;` — with the fuel of the theorems
+example : (match parseStatementText
+      ['S','E','L','E','C','T',' ','a',' ','F','R','O','M',' ','(','S','E','L','E','C','T',' ','b',' ',
+       'F','R','O','M',' ','m',')',' ','W','H','E','R','E',' ','a','>','1'] [] [] with
+    | .ok (.select _) => true
+    | _ => false) = true := by decide +kernel
+
+example : (match parseQueryText
+      ['S','H','O','W',' ','D','A','T','A','B','A','S','E','S',';','D','R','O','P',' ','U','S','E','R',' ','u'] [] [] with
+    | .ok [.showDatabases, .dropUser _] => true
+    | _ => false) = true := by decide +kernel
+
+-- … and rejects a malformed one with an ordinary error
+example : (match parseStatementText ['S','H','O','W',' ','T','A','G',' ','(','('] [] [] with
+    | .error (.err _) => true
+    | _ => false) = true := by decide +kernel
+
+-- the theorems instantiated on concrete texts
+example := parseStatement_fuel_suffices
+  "SELECT mean(v) FROM (SELECT v FROM m) GROUP BY time(1m) fill(0)".toList [] []
+example := parseQuery_fuel_suffices
+  "CREATE CONTINUOUS QUERY q ON d BEGIN SELECT max(v) INTO t FROM m END;;".toList [] []
+
+-- non-vacuity of the state-level hypotheses (statement level): the initial state of any text
+example (text : Str) (params : List (Str × BoundValue)) :
+    Outcome (parseQuery (fuelFor text)) (PState.init text params []) := by
+  obtain ⟨hg, hn, hmu⟩ := init_good text params []
+  exact (parseStatement_fuel_suffices_state (fuelFor text) _ hg (by omega)
+    (by unfold FuelOK fuelFor; omega)).2.1
 
 end InfluxQL.C04
